@@ -151,10 +151,10 @@ class Program:
         self.defmods = {}
 
     # ------------------------------------------------------------------ MIR dump
-    def dump_mir(self, scratch, crates=('mpd_protocol', 'mpd_client')):
+    def dump_mir(self, scratch, crates=('mpd_protocol', 'mpd_client'), target=None):
         t0 = time.time()
         env = dict(os.environ)
-        env['CARGO_TARGET_DIR'] = os.path.join(scratch, 'ws-target')
+        env['CARGO_TARGET_DIR'] = target or os.path.join(scratch, 'ws-target')
         env['CARGO_NET_OFFLINE'] = 'true'
         env.pop('RUSTFLAGS', None)
         for crate in crates:
@@ -339,6 +339,15 @@ class Program:
                     self.closures[mm.group(1)] = f
             if f.kind == 'const':
                 self.consts[name] = f
+                if m and not m.group(3):
+                    # associated constant of an inherent impl: also reachable as `Type::NAME` (how MIR operands name it)
+                    loc = m.group(1)
+                    if loc not in impl_cache:
+                        impl_cache[loc] = self.parse_impl_header(loc)
+                    sp = impl_cache[loc][2]
+                    if sp is not None and sp[0] == 'path':
+                        mod = name.split('::<impl at')[0]
+                        self.consts.setdefault((mod + '::' if mod else '') + sp[1].split('::')[-1] + '::' + m.group(2), f)
                 continue
             if m and not m.group(3):
                 loc = m.group(1)
